@@ -103,3 +103,14 @@ def register_latebox():
       unflatten_fn=lambda values, _: LateBox(values),
       path_elements_fn=lambda b: tuple(daglish.Index(i) for i in range(len(b.items))))
   LATEBOX_REGISTERED[0] = True
+
+
+# A stack of registries whose MIDDLE layer has no registrations of its own (a library layer that
+# applications extend): lookups must fall through it to the default registry.
+EMPTY_MIDDLE_REGISTRY = daglish.NodeTraverserRegistry(use_fallback=True)
+STACKED_REGISTRY = daglish.NodeTraverserRegistry(use_fallback=EMPTY_MIDDLE_REGISTRY)
+STACKED_REGISTRY.register_node_traverser(
+    CustomBox,
+    flatten_fn=lambda b: (tuple(b.items), None),
+    unflatten_fn=lambda values, _: CustomBox(values),
+    path_elements_fn=lambda b: tuple(daglish.Index(i) for i in range(len(b.items))))
